@@ -237,16 +237,18 @@ pub const VAR_NAMES: [&str; 12] = [
 
 thread_local! {
     /// generated binder names get a leading underscore (C15: `_v7` is an ordinary variable name)
-    pub static UNDERSCORE_NAMES: std::cell::Cell<bool> = std::cell::Cell::new(false);
+    pub static UNDERSCORE_NAMES: std::cell::Cell<u8> = std::cell::Cell::new(0);
 }
 
 pub fn var_name(i: u32) -> String {
-    if (i as usize) < VAR_NAMES.len() {
-        VAR_NAMES[i as usize].to_string()
-    } else if UNDERSCORE_NAMES.with(|u| u.get()) {
-        format!("_v{}", i)
+    let base = if (i as usize) < VAR_NAMES.len() { VAR_NAMES[i as usize].to_string() } else { format!("v{}", i) };
+    // every variable other than the two query variables is a binder of the program
+    // mode 1: all binders; modes 2 and 3: every other pair of binders (the two asymmetric renamings)
+    let mode = UNDERSCORE_NAMES.with(|u| u.get());
+    if i >= 2 && (mode == 1 || (mode == 2 && (i / 2) % 2 == 1) || (mode == 3 && (i / 2) % 2 == 0)) {
+        format!("_{}", base)
     } else {
-        format!("v{}", i)
+        base
     }
 }
 
